@@ -458,7 +458,7 @@ func runC09(idx int, rng *rand.Rand, tier string) []Case {
 			rng.Read(rs[i].Body)
 		}
 	}
-	if (idx%30 == 5 || idx%30 == 6) && n > 1 { // a record larger than 64 KiB in the middle of the stream
+	if (idx%30 == 5 || idx%30 == 6 || idx%30 == 7) && n > 1 { // a record larger than 64 KiB in the middle of the stream (json, gob, csv)
 		k := rng.Intn(n - 1)
 		rs[k].Body = make([]byte, 60000+rng.Intn(30000))
 		rng.Read(rs[k].Body)
